@@ -1820,6 +1820,211 @@ def part_subprocess(ctx, U, D, cases, usable, base):
     ctx.count("subprocess:dispatchers-with-process-dependent-ordering", len(differing))
 
 
+# ----------------------------------------------------------------------------------------
+# real terms obtained through multi-step histories (built lazily, then REBUILT by interpreters)
+# ----------------------------------------------------------------------------------------
+
+HIST_PRELUDE = """
+import gc, warnings
+from collections import OrderedDict
+import numpy as np
+import funsor; funsor.set_backend("numpy")
+import funsor.ops as ops
+from funsor.tensor import Tensor
+from funsor.terms import Variable, Number, Funsor, Unary, Binary, Stack, Lambda
+from funsor.terms import Tuple as FTuple
+from funsor.domains import Bint, Real, Reals
+from funsor.gaussian import Gaussian
+from funsor.interpretations import eager, lazy, reflect, normalize, moment_matching
+from funsor.interpreter import reinterpret
+from funsor.optimizer import apply_optimizer
+from funsor.typing import deep_type, deep_isinstance, get_origin, get_args
+import typing
+I = OrderedDict
+def mk(seed):
+    r = np.random.RandomState(seed)
+    a = Tensor(r.rand(2, 3), I(i=Bint[2], j=Bint[3]))
+    b = Tensor(r.rand(3) + 1, I(j=Bint[3]))
+    def g():
+        p = r.rand(2, 2); p = p @ p.T + np.eye(2)
+        return Gaussian(white_vec=r.rand(2), prec_sqrt=np.linalg.cholesky(p), inputs=I(z=Reals[2]))
+    return a, b, g(), g(), Variable("x", Real), Variable("y", Reals[2])
+def precise(v):
+    # the precise type of a value recomputed from its actual constituents (never from type(child))
+    if isinstance(v, Funsor):
+        return get_origin(type(v))[tuple(precise(c) for c in v._ast_values)]
+    if isinstance(v, tuple):
+        return typing.Tuple[tuple(precise(c) for c in v)] if v else typing.Tuple
+    return deep_type(v)
+def nodes(v, out):
+    if isinstance(v, Funsor):
+        out.append(v)
+        for c in v._ast_values:
+            nodes(c, out)
+    elif isinstance(v, (tuple, frozenset)):
+        for c in v:
+            nodes(c, out)
+    return out
+"""
+
+# (name, lazy construction, rebuild) — in each, some child changes class when rebuilt while its
+# parent has no rewrite rule and is re-created by the interpreter from type(parent) and new children
+HISTORIES = [
+    ("exp-of-gaussian-sum", "with reflect:\n    t0 = (g1 + g2).exp()", "t = reinterpret(t0)"),
+    ("binary-over-tensor-product", "with reflect:\n    t0 = (a * b) + x", "t = reinterpret(t0)"),
+    ("binary-over-reduce", "with reflect:\n    t0 = a.reduce(ops.add, 'i') * x", "t = reinterpret(t0)"),
+    ("binary-over-subs", "with reflect:\n    t0 = a(i=1) + x", "t = reinterpret(t0)"),
+    ("unary-over-binary-over-product", "with reflect:\n    t0 = ((a * b) + x).exp()", "t = reinterpret(t0)"),
+    ("stack-of-rebuilt", "with reflect:\n    t0 = Stack('s', (a * b, (a * b) + x))", "t = reinterpret(t0)"),
+    ("tuple-of-rebuilt", "with reflect:\n    t0 = FTuple((a * b, x + (a + b)))", "t = reinterpret(t0)"),
+    ("lambda-of-rebuilt", "with reflect:\n    t0 = Lambda(Variable('i', Bint[2]), (a * b) + x)", "t = reinterpret(t0)"),
+    ("lazy-then-eager", "with lazy:\n    t0 = ((a * b).reduce(ops.add, 'j') + x).exp()", "t = reinterpret(t0)"),
+    ("lazy-then-normalize", "with lazy:\n    t0 = (a * b) + x", "with normalize:\n    t = reinterpret(t0)"),
+    ("reflect-then-normalize", "with reflect:\n    t0 = ((g1 + g2) + b).exp()", "with normalize:\n    t = reinterpret(t0)"),
+    ("reflect-then-moment-matching", "with reflect:\n    t0 = ((g1 + g2) + b).exp()", "with moment_matching:\n    t = reinterpret(t0)"),
+    ("optimizer", "with lazy:\n    t0 = ((a * b) + x).reduce(ops.add, 'i')", "t = apply_optimizer(t0)"),
+    ("gaussian-plus-tensor-under-variable", "with reflect:\n    t0 = (g1 + b) + y[0]", "t = reinterpret(t0)"),
+]
+
+HIST_CHECK = """
+bad = [n for n in nodes(t, []) if type(n) is not precise(n)]
+own = [n for n in nodes(t, []) if not deep_isinstance(n, precise(n))]
+print("nodes", len(nodes(t, [])), "stale-typed", [(type(n), precise(n)) for n in bad][:2])
+FAILS = bool(bad or own)
+"""
+
+
+def real_val_tree(U, v):
+    """value tree of a REAL object for the model's deepType"""
+    from funsor.terms import Funsor
+    if isinstance(v, Funsor):
+        o = get_origin(type(v))
+        if o not in U.ids:
+            raise Unsupported(repr(o))
+        return ("term", U.ids[o], tuple(real_val_tree(U, c) for c in v._ast_values))
+    if isinstance(v, tuple):
+        return ("tuple", tuple(real_val_tree(U, c) for c in v))
+    if isinstance(v, frozenset):
+        return ("fset", tuple(real_val_tree(U, c) for c in v))
+    if type(v) not in U.ids:
+        raise Unsupported(repr(type(v)))
+    return ("o", U.ids[type(v)])
+
+
+def real_vsx(vt):
+    if vt[0] == "o":
+        return f"(o {vt[1]})"
+    if vt[0] == "term":
+        return "(" + " ".join(["term", str(vt[1])] + [real_vsx(x) for x in vt[2]]) + ")"
+    return "(" + " ".join([vt[0]] + [real_vsx(x) for x in vt[1]]) + ")"
+
+
+def part_rebuilt_terms(ctx, U, D, clean, use_driver=True):
+    """every node of every term produced by a multi-step history must carry, as class parameters, the
+    deep types of its ACTUAL arguments; be an instance of that type and of its generalisations; and
+    dispatch like a structurally equal term described by freshly computed types — with and without
+    another live copy of the same term in the cons cache."""
+    import gc
+    import funsor.ops as ops
+    from funsor.terms import Funsor
+    g = {}
+    exec(HIST_PRELUDE, g)
+    precise, nodes = g["precise"], g["nodes"]
+    patterns = [t for t in clean if t[0] == "g"]
+    reqs = []
+    seed0 = ctx.rng.randrange(10 ** 6)
+    for hi, (name, build, rebuild) in enumerate(HISTORIES):
+        for variant in ("no-live-copy", "live-copy-held", "after-gc"):
+            ns = dict(g)
+            ns["a"], ns["b"], ns["g1"], ns["g2"], ns["x"], ns["y"] = g["mk"](seed0 + hi)
+            src = build + "\n" + rebuild
+            try:
+                with warnings.catch_warnings():
+                    warnings.simplefilter("ignore")
+                    if variant == "live-copy-held":
+                        # the same term built directly (eagerly) and kept alive: the rebuilt one may be
+                        # answered from the cons cache
+                        exec(build.split("\n", 1)[1].strip().replace("t0 =", "held =", 1), ns)
+                    exec(src, ns)
+                    if variant == "after-gc":
+                        ns.pop("t0", None)
+                        gc.collect()
+            except Exception as e:   # noqa
+                ctx.count(f"rebuilt:history-raised:{name}")
+                continue
+            t = ns["t"]
+            ctx.count("rebuilt:histories")
+            replay = HIST_PRELUDE + f"a, b, g1, g2, x, y = mk({seed0 + hi})\n" + src + "\n" + HIST_CHECK
+            for n in nodes(t, []):
+                ctx.count("rebuilt:nodes")
+                want = precise(n)
+                if type(n) is not want:
+                    ctx.fail("input", "C16.rebuilt-term-type-parameters-stale",
+                             witness=dict(history=name, variant=variant, type=repr(type(n)), precise=repr(want)),
+                             expected=f"type(term) is {want!r} (origin class subscripted by the deep types of its actual arguments)",
+                             got=repr(type(n)), python=replay)
+                    return
+                try:
+                    own = deep_isinstance(n, want) and all(deep_isinstance(c, p) for c, p in zip(n._ast_values, get_args(type(n))))
+                except Exception as e:   # noqa
+                    own = False
+                if not own:
+                    ctx.fail("input", "C16.instance-of-own-type", witness=dict(history=name, variant=variant, type=repr(want)),
+                             expected="deep_isinstance(term, its precise type)", got="False", python=replay)
+                    return
+                # upward closure against every registered / pooled class pattern
+                try:
+                    wt = U.enc(want)
+                except Unsupported:
+                    wt = None
+                if wt is not None:
+                    for p in patterns:
+                        if real_sub(U, wt, p) == "T":
+                            ctx.count("rebuilt:generalisations")
+                            if not deep_isinstance(n, U.dec(p)):
+                                ctx.fail("input", "C16.instance-upward-closure",
+                                         witness=dict(history=name, variant=variant, precise=tshow(U, wt), pattern=tshow(U, p)),
+                                         expected="instance of every generalisation of its precise type", got="not an instance", python=replay)
+                                return
+                    if use_driver:
+                        try:
+                            reqs.append((f"C16 deeptype {real_vsx(real_val_tree(U, n))}", tsx(U.enc(type(n))), name))
+                        except Unsupported:
+                            ctx.count("rebuilt:beyond-table")
+            # the term as an ARGUMENT of further dispatches: live object vs freshly computed types
+            probes = [("Unary", (ops.log, t)), ("Unary", (ops.exp, t)), ("Unary", (ops.neg, t)),
+                      ("Binary", (ops.add, t, ns["x"])), ("Binary", (ops.mul, t, ns["x"])), ("Binary", (ops.add, ns["b"], t)),
+                      ("Reduce", (ops.add, t, frozenset([ns["x"]]))), ("Reduce", (ops.logaddexp, t, frozenset([ns["x"]])))]
+            for it in D.items:
+                for kname, args in probes:
+                    if it["key"].__name__ != kname:
+                        continue
+                    try:
+                        with warnings.catch_warnings():
+                            warnings.simplefilter("ignore")
+                            f_live = it["reg"].dispatch(it["key"], *args)
+                            f_fresh = it["disp"].dispatch(*tuple(typing_wrap(precise(x)) for x in args))
+                    except TypeError:
+                        ctx.count("rebuilt:dispatch-raised")
+                        continue
+                    ctx.count("rebuilt:dispatches")
+                    if getattr(f_live, "default", f_live) is not getattr(f_fresh, "default", f_fresh):
+                        ctx.fail("input", "C16.dispatch-depends-on-history",
+                                 witness=dict(history=name, variant=variant, dispatcher=it["name"], args=[repr(deep_type(x)) for x in args],
+                                              on_rebuilt_term=fname(f_live), on_fresh_types=fname(f_fresh)),
+                                 expected=fname(f_fresh), got=fname(f_live), python=replay)
+                        return
+            ctx.case(sample=dict(history=name, variant=variant, type=repr(type(t))[:200]) if variant == "no-live-copy" and hi < 2 else None,
+                     nontrivial_key=("rebuilt", name, variant))
+    if use_driver and reqs:
+        ans = ctx.driver.ask([r for r, _, _ in reqs])
+        for (rq, want, name), a in zip(reqs, ans):
+            ctx.count("rebuilt:deeptype-vs-model")
+            if a != "ok " + want:
+                ctx.fail("correspondence", "C16.deep_type-vs-model", witness=dict(history=name, request=rq[:500], real=want[:500], model=a[:500]))
+                break
+
+
 def part_known_ambiguity(ctx, U, D, kf_cases):
     """dedicated stream for KF-precondition-ambiguous-patterns: two registered patterns overlap, neither
     is more specific, nothing more specific covers the overlap"""
@@ -1912,7 +2117,11 @@ def correspond(ctx):
                 "soundness against a set-theoretic membership oracle, deep_type vs model; (3) per registered signature "
                 "6 (thorough 40) synthesised argument tuples (instantiated below the pattern, with near-misses) + observed "
                 "tuples: real dispatch vs model first-match, chosen rule most specific (python oracle), repeated after "
-                "cache clearing in shuffled order and in fresh subprocesses.  Non-trivial = a pair that is not two plain "
+                "cache clearing in shuffled order and in fresh subprocesses; (4) REAL terms from multi-step histories (built under "
+                "reflect/lazy, rebuilt by reinterpret/normalize/moment_matching/optimizer so that a child changes class under a "
+                "parent without a rule; with / without a live copy / after gc): every node's class parameters = deep types of its "
+                "actual args, own type, upward closure, dispatch on the live term = dispatch on freshly computed types, deep_type "
+                "vs model.  Non-trivial = a pair that is not two plain "
                 "classes and does not raise / a structured value / a dispatch with >= 2 matching signatures; distinct by content.")
     U, D = state()
     if U.dropped:
@@ -1926,6 +2135,7 @@ def correspond(ctx):
     if clean is None or ctx.infra_errors:
         return
     part_values(ctx, U, D, clean, observed)
+    part_rebuilt_terms(ctx, U, D, clean)
     kf_cases = []
     r = part_dispatch(ctx, U, D, observed, kf_cases=kf_cases)
     part_known_ambiguity(ctx, U, D, kf_cases)
@@ -1961,6 +2171,10 @@ def search(ctx, broken):
             return
         if clean:
             part_values(ctx, U, D, clean, observed, use_driver=False)
+        if found():
+            return
+        if clean:
+            part_rebuilt_terms(ctx, U, D, clean, use_driver=False)
         if found():
             return
         r = part_dispatch(ctx, U, D, observed, use_driver=False)
